@@ -325,6 +325,13 @@ fn main() {
                     let (c, _) = classify(&r);
                     std::mem::forget(r);
                     if round < 6 { seq.push(c); }
+                    // the configured depth must be back after EVERY parse, successful or not
+                    // (observer hook under cfg(sqlparser_verif)): a leak on the error path would
+                    // slowly raise the effective limit of a re-used parser
+                    let remaining = p.verif_remaining_depth();
+                    if remaining != lim {
+                        return json!({"status": "depth_drift", "round": round, "configured": lim, "remaining_after_parse": remaining, "outcome": c, "first": seq});
+                    }
                     if round % 2 == 1 && c != "ok" {
                         return json!({"status": "not_restored", "round": round, "shallow_depth": dd, "observed": c, "first": seq});
                     }
